@@ -68,6 +68,12 @@ fn expected(root: &Path, files: &[String], spec: &WsSpec, f: &str, ftext: &str) 
     // F is an open document and is analysed first: following another file's import must never pick up F's on-disk text
     // (nor the modules only that older text imports)
     db.document_opened(&root.join(f));
+    if rustpython_parser::parse(ftext, rustpython_parser::Mode::Module, "").is_err() {
+        // a buffer that does not parse leaves the last valid version in effect: the file on disk
+        if let Some(pf) = spec.file(f) {
+            db.analyze_file(root.join(f), &render(&pf.items).text);
+        }
+    }
     db.analyze_file(root.join(f), ftext);
     for rf in files {
         if rf != f {
@@ -160,6 +166,8 @@ impl Scenario for ScanEdit {
             sim.max_steps = keep;
         }
         let via_symlink = rng.chance(150);
+        // the user is in the middle of typing: the buffer does not parse (the file on disk is its last valid version)
+        let buffer = if rng.chance(150) { super::pytext::break_syntax(&mut rng, &spec.file(&file).map(|pf| render(&pf.items).text).unwrap_or_else(|| buffer.clone())) } else { buffer };
         serde_json::to_value(ScanEditInput { spec, sim, file, buffer, kind: kind.into(), delay, aim, second, run_seed, sandbox: None, via_symlink }).unwrap()
     }
 
